@@ -663,6 +663,76 @@ pub mod verif_hooks
 		analyzer
 	}
 
+	/// What a parameter (0), structure member (1), constant (2) or local
+	/// variable (3) of the given type is recorded as: Some(is_mutable).
+	pub fn recorded_mutability(
+		form: usize,
+		value_type: Poisonable<ValueType>,
+	) -> Option<bool>
+	{
+		let mut analyzer = analyzer_with(&[]);
+		let location = || Location {
+			source_filename: String::new(),
+			span: 0..0,
+			line_number: 1,
+			line_offset: 1,
+		};
+		let name = Identifier {
+			name: String::from("x"),
+			location: location(),
+			resolution_id: 1,
+			is_authoritative: true,
+		};
+		match form
+		{
+			0 =>
+			{
+				let _ = Parameter {
+					name: Ok(name),
+					value_type,
+					location_of_type: location(),
+				}
+				.analyze(&mut analyzer);
+			}
+			1 =>
+			{
+				let _ = Member {
+					name: Ok(name),
+					value_type,
+					location_of_type: location(),
+				}
+				.analyze(&mut analyzer);
+			}
+			2 =>
+			{
+				let _ = Declaration::Constant {
+					name,
+					value: Expression::BooleanLiteral {
+						value: true,
+						location: location(),
+					},
+					value_type,
+					flags: Default::default(),
+					depth: None,
+					location_of_declaration: location(),
+					location_of_type: location(),
+				}
+				.analyze(&mut analyzer);
+			}
+			_ =>
+			{
+				let _ = Statement::Declaration {
+					name,
+					value: None,
+					value_type: Some(value_type),
+					location: location(),
+				}
+				.analyze(&mut analyzer);
+			}
+		}
+		analyzer.variables.get(&1).map(|(_, is_mutable)| *is_mutable)
+	}
+
 	/// `use_variable` with the given variables declared (id, is_mutable).
 	pub fn use_variable(
 		declared: &[(u32, bool)],
